@@ -72,7 +72,7 @@ func c14Gen(rt *rapid.T) c14Case {
 	c := c14Case{History: gen.History(rt, cfg, db), Tick: rapid.Bool().Draw(rt, "tick")}
 	names := db.TableNames()
 	t := db.Tables[names[rapid.IntRange(0, len(names)-1).Draw(rt, "tbl")]]
-	kinds := []string{"unknown-insert", "unknown-update", "unknown-delete", "dup-create", "colcount", "type", "intrange", "oversize", "upd-type", "upd-oversize-kth", "create-badlen", "create-longname", "where-error-kth", "where-error-kth", "case-variant"}
+	kinds := []string{"unknown-insert", "unknown-update", "unknown-delete", "dup-create", "colcount", "type", "intrange", "oversize", "upd-type", "upd-oversize-kth", "create-badlen", "create-longname", "where-error-kth", "where-error-kth", "case-variant", "where-unknown-col"}
 	for tries := 0; ; tries++ {
 		c.Kind = rapid.SampledFrom(kinds).Draw(rt, "failkind")
 		s := model.Stmt{Table: t.Name}
@@ -88,6 +88,18 @@ func c14Gen(rt *rapid.T) c14Case {
 			s = model.Stmt{Kind: "delete", Table: "no_such_table"}
 		case "dup-create":
 			s = model.Stmt{Kind: "create", Table: t.Name, Cols: gen.Columns(rt, 3)}
+		case "where-unknown-col":
+			where := &model.Cond{Or: [][]model.Cmp{{{L: model.Operand{Col: "no_such_col"}, Op: "=", R: model.Operand{Lit: &model.Val{T: "i", I: 1}}}}}}
+			if rapid.Bool().Draw(rt, "wdel") {
+				s = model.Stmt{Kind: "delete", Table: t.Name, Where: where}
+			} else {
+				v := gen.Value(rt, "setv", t.Cols[0].Type, false, true, 4)
+				s = model.Stmt{Kind: "update", Table: t.Name, Set: []model.Assign{{Col: t.Cols[0].Name, Val: v}}, Where: where}
+			}
+			s.SQL = gen.RenderStmt(gen.NewStyle(rt), s)
+			c.K, c.N = 0, len(t.Rows)
+			c.Expect, c.Failing = model.ErrType, s
+			return c
 		case "case-variant":
 			// the table addressed in a different letter case: table names are case-sensitive, so
 			// this is an unknown table - whatever the answer is, an error must not leave rows behind
@@ -331,7 +343,7 @@ func c14Run(c c14Case, st *vlib.Stats) string {
 	ferr := eng.ExecStmt(c.Failing)
 	if ferr == nil {
 		switch c.Kind {
-		case "create-badlen", "create-longname", "where-error-kth", "case-variant":
+		case "create-badlen", "create-longname", "where-error-kth", "case-variant", "where-unknown-col":
 			// whether these fail is the implementation's choice (how wide the catalog's length
 			// column is, whether a comparison with NULL is an error); the property only says
 			// what must hold IF the statement returns an error
